@@ -36,6 +36,14 @@ checks = {
    technique="exhaustive enumeration of zone shapes (AXFR n≤5, IXFR up-to-date/fallback/1-3 difference sequences) × all 2^(m-1) envelope compositions × TSIG on/off × read segmentation, with every single fault (and all fault pairs for small zones: drop/duplicate/swap/alter/unsign/re-key an envelope, EOF at every octet, wrong ID, RCODE, non-SOA first, empty answer) replayed through the real Transfer.In / Transfer.Out / Server over a scripted in-memory connection against a reference termination machine",
    text="Delivered records, termination point, error/no-error verdict and close ordering (connection before channel) agree with the reference specification (RFC 5936 §2.2, RFC 1995 §4, RFC 8945 §5.3.1) on every enumerated transfer.",
    note="Trusted: harness/ref/xfr; the scripted sender's MAC chaining uses dns.TsigGenerate for the digest (its correctness is C11). Streams with records behind the closing SOA inside one message are recorded as observations only."),
+ "C09": dict(cat="exploration", eng="E1", ref="§5 C09",
+   technique="bounded-exhaustive enumeration of replies (section sizes {0..3}^3 / {0..4}^3 × record-shape assignments × OPT placement × Compress × TC) × every Truncate size from 0 to the full length+2 (plus 511/512/513/65535) run on the real Msg.Truncate and judged by an independent post-condition specification",
+   text="Every (message, size) pair in the space is truncated on a fresh copy and checked against each clause of the statement (fits, section prefixes, no later-section survivor, OPT retained, TC exactly when dropped or pre-set, nothing dropped when it fits, first dropped record would not have fitted).",
+   note="Trusted: harness/ref/trunc (pure specification); Msg.Pack only supplies octet counts. For >3 records the shape assignments are bounded (Hamming ≤1 of uniform + staircases)."),
+ "C16": dict(cat="exploration", eng="E1", ref="§5 C16",
+   technique="exhaustive enumeration over every registered RR type (default, all ≤2-3-deviation vectors and the maximal instance; every EDNS0 option and SVCB key kind through the OPT/SVCB alphabets) and over populated messages: reflection+unsafe walk of the object graphs of original vs Copy/CopyTo and of Unpack results vs their input buffer (address-range disjointness), write-through tests in both directions, overwriting every octet of the input buffer, and deep snapshots around each read-only operation incl. RRSIG.Sign/Verify",
+   text="No reachable slice/map/pointee range is shared between a record or message and its copy, nor between an unpacked message and the buffer; no write is observable through the other object; read-only operations leave their arguments bit-identical apart from Rdlength and the OPT extended-RCODE octet.",
+   note="Trusted: the reflection walker (follows exported and unexported fields, interfaces, pointers, slices, maps). Strings are exempt (immutable)."),
 }
 na_reason = "check not built yet in this session (planned in DESIGN.md §5); not claimed until it runs"
 m = {
